@@ -4,11 +4,11 @@ package main
 // decodes the produced bytes with the harness's own decoder.
 
 import (
-	"strings"
 	"bytes"
 	"encoding/json"
 	"fmt"
 	"math/rand"
+	"strings"
 
 	"git.defalsify.org/vise.git/asm"
 )
@@ -142,7 +142,9 @@ func cmdAsmRandom(args []string) error {
 	var n int
 	fmt.Sscan(args[1], &n)
 	rng := rand.New(rand.NewSource(seed()))
-	syms := []string{"foo", "bar", "ba_r9", "xyzzy", "a", "inky_pinky", "n0", "zz9", "_catch"}
+	// (symbols of 127, 128, 200 and 255 bytes: the one-byte length prefix on both sides of its sign bit and at its end)
+	syms := []string{"foo", "bar", "ba_r9", "xyzzy", "a", "inky_pinky", "n0", "zz9", "_catch",
+		"s" + strings.Repeat("x", 126), "t" + strings.Repeat("y", 127), "u" + strings.Repeat("z", 199), "v" + strings.Repeat("w", 254)}
 	sels := []string{"0", "1", "2", "9", "10", "11", "22", "99", "1234", "a", "ab", "x1", "a1b2", "zz", "*", "00", "007", "1a", "2b3", "010"}
 	pick := func(xs []string) string { return xs[rng.Intn(len(xs))] }
 	for i := 0; i < n; i++ {
